@@ -1002,11 +1002,10 @@ def _iloc_cost(case):
 
 
 def _iloc_cases(tier):
-    cases = [('series', kind, n) for kind in 'ifbUOM' for n in range(0, 5)]
-    cases.extend(_frame_cases_iloc(tier))
-    # deterministic load balancing: round-robin sharding over cases sorted by estimated size
+    cases = list(_frame_cases_iloc(tier))
+    # deterministic load balancing: round-robin sharding over cases sorted by estimated size; the small Series cases go first
     cases.sort(key=lambda c: -_iloc_cost(c))
-    return cases
+    return [('series', kind, n) for kind in 'ifbUOM' for n in range(0, 5)] + cases
 
 
 def run_iloc(repo, task):
